@@ -177,6 +177,18 @@ def _ids(depth):
     return RANK_IDS[:depth]
 
 
+def _pf(d=None, l=None):
+    """Parameter features, kept coarse so that one root cause does not fan out
+    into hundreds of signatures (the exact parameters are in the replayed case's
+    expected / observed): depth 0 versus deeper, one level versus several."""
+    out = set()
+    if d is not None:
+        out.add("depth=0" if d == 0 else "depth>0")
+    if l is not None:
+        out.add("levels=1" if l == 1 else "levels>1")
+    return out
+
+
 # ---------------------------------------------------------------------------
 # group: swizzle / swap
 
@@ -187,11 +199,12 @@ def g_swizzle(k):
         ids = _ids(D)
         for perm in itertools.permutations(range(D)):
             new_ids = [ids[i] for i in perm]
-            feats = {"perm:" + "".join(map(str, perm))}
+            feats = set()
             if perm == tuple(range(D)):
                 feats.add("identity")
                 cur.path("swizzle:identity")
             else:
+                feats.add("proper_permutation")
                 cur.path("swizzle:proper")
             hold = {}
 
@@ -203,7 +216,7 @@ def g_swizzle(k):
                 k.run("T.swizzleRanks", feats | {"inverse"}, lambda: r.swizzleRanks(list(ids)), C, D,
                       what="roundtrip-content")
         for d in range(D - 1):
-            feats = {"d=%d" % d} | k.empties_at(d)
+            feats = _pf(d) | k.empties_at(d)
             r = k.run("T.swapRanks", feats, lambda: k.fresh().swapRanks(depth=d), R.image_swap(C, d), D)
             if r is not None:
                 k.run("T.swapRanks", feats | {"inverse"}, lambda: r.swapRanks(depth=d), C, D,
@@ -216,7 +229,7 @@ def g_swizzle(k):
             if not tops or any(not tree_content(s, D - d) for _, s in tops):
                 cur.path("F.swap:skipped-precondition")
                 continue
-            feats = {"d=%d" % d}
+            feats = _pf(d)
             if d == 0:
                 r = k.run("F.swapRanks", feats, lambda: k.fresh().swapRanks(), R.image_swap(C, 0), D)
                 if r is not None:
@@ -244,7 +257,7 @@ def g_flatten(k):
         for style in R.STYLES:
             if style == "linear" and not _has_shape(k.form):
                 continue
-            feats = {"d=%d" % d, "levels=%d" % l, "style:" + style}
+            feats = _pf(d, l) | {"style:" + style}
             if style in ("absolute", "relative"):
                 if R.rank_collides(R.stored_prefixes(k.spec, D, d + l + 1), d, l, style, dims):
                     cur.path("flatten:%s:collision-skipped" % style)
@@ -302,7 +315,7 @@ def g_merge(k):
             coll = R.collides(list(C), d, l, style, dims)
             cur.path("merge:collision" if coll else "merge:no-collision")
             for name, fn, ref in MERGE_FNS:
-                feats = {"d=%d" % d, "levels=%d" % l, "style:" + style, "fn:" + name}
+                feats = _pf(d, l) | {"style:" + style, "fn:" + name}
                 if coll:
                     feats.add("collision")
                 exp = R.image_merge(C, d, l, style, dims, ref)
@@ -324,9 +337,7 @@ def g_split(k):
     for d in range(D):
         for kind in ("splitUniform", "splitEqual"):
             for step in (1, 2):
-                feats = {"d=%d" % d, "step=%d" % step}
-                if d > 0:
-                    feats.add("deep")
+                feats = _pf(d)
                 if k.form != "f":
                     def tfn():
                         s = getattr(k.fresh(), kind)(step, depth=d)
@@ -357,9 +368,7 @@ def g_update(k):
         n = dims[d]
         funcs = (("shift", lambda c, n=n: c + 1, n + 1), ("reverse", lambda c, n=n: n - 1 - c, None))
         for name, f, new_shape in funcs:
-            feats = {"d=%d" % d, "func:" + name}
-            if d > 0:
-                feats.add("deep")
+            feats = _pf(d) | {"func:" + name}
             exp = R.image_coord(C, d, f)
             model = None
             if d > 0:
@@ -385,7 +394,7 @@ def g_update(k):
         seen.append(c)
         return p
     for d in range(D):
-        feats = {"d=%d" % d, "leaf" if d == D - 1 else "interior"}
+        feats = _pf(d) | {"leaf" if d == D - 1 else "interior"}
         if d == D - 1:
             exp = R.image_value(C, scale)
             model = ("payloads_written_at_occupancy_index",
